@@ -134,6 +134,8 @@ def builtins():
             return TupleV(v.items)
         if isinstance(v, ObjV) and '__tuple__' in v.fields:
             return v.fields['__tuple__'].fn(p, [v], {})
+        if isinstance(v, (IterV, SeqV)):
+            return SeqV(v.at, v.length, 'tuple(%s)' % v.name)       # the same elements in the same order, immutable
         raise Unsupported('tuple of %r' % (v,))
 
     def _list(p, args, kw):
